@@ -176,6 +176,11 @@ def registry(Ef, om):
         out.append((f"dyn.{n}", (lambda c=c, kw=kw: c(**kw))))
         if n == "SHC":
             out.append(("dyn.SHC|qiao", (lambda c=c, kw=kw: c(SHC_type="qiao", **kw))))
+            # documented option: a single component sigma^{spin c}_{ab} (1-based indices) instead of the full tensor
+            for abc in ((1, 2, 3), (3, 1, 2), (2, 2, 1)):
+                tag = "".join(str(x) for x in abc)
+                out.append((f"dyn.SHC|abc{tag}", (lambda c=c, kw=kw, abc=abc: c(shc_abc=abc, **kw))))
+                out.append((f"dyn.SHC|qiao|abc{tag}", (lambda c=c, kw=kw, abc=abc: c(SHC_type="qiao", shc_abc=abc, **kw))))
     # the composite SDCT calculators are sums of these eight terms, which all declare the same transforms
     for n in sorted(x for x in dir(sdct) if x.startswith("SDCT_") and ("_sea_" in x or "_surf_" in x)):
         for tag, terms in (("|M1", dict(M1_terms=True, E2_terms=False, V_terms=False)),
